@@ -239,6 +239,20 @@ impl RefCreds {
     }
 }
 
+/// Two keys are the same HMAC key when their block-normalised forms agree (RFC 2104: keys
+/// shorter than the 64-byte block are zero-padded, longer ones are hashed first).  "x" and "x\0"
+/// are therefore not "another key".
+pub fn hmac_equivalent(k1: &[u8], k2: &[u8]) -> bool {
+    let norm = |k: &[u8], h: &dyn Fn(&[u8]) -> Vec<u8>| -> Vec<u8> {
+        let mut v = if k.len() > 64 { h(k) } else { k.to_vec() };
+        v.resize(64, 0);
+        v
+    };
+    let s1 = |d: &[u8]| super::crypto::sha1(d).to_vec();
+    let s2 = |d: &[u8]| super::crypto::sha256(d).to_vec();
+    norm(k1, &s1) == norm(k2, &s1) || norm(k1, &s2) == norm(k2, &s2)
+}
+
 /// HMAC text for an integrity attribute whose header is at `off` with value length `len`.
 pub fn integrity_text(b: &[u8], off: usize, len: usize) -> Vec<u8> {
     let mut v = b[..off].to_vec();
